@@ -88,6 +88,7 @@ func bitStreamProperty(t *rapid.T) {
 	total := 0
 	canon := ""
 	abandoned := false
+	truncBefore := false
 	for round := 0; round < rounds; round++ {
 		if round > 0 {
 			buf.Reset()
@@ -124,6 +125,38 @@ func bitStreamProperty(t *rapid.T) {
 		got := append([]byte(nil), buf.Bytes()...)
 		if !bytes.Equal(got, want) {
 			t.Fatalf("round %d: stream bytes %x, MSB-first packing of the written bits %x (ops %+v)", round, got, want, ops)
+		}
+		// a truncated copy of the stream first: the reader runs past its end (an error is reported, see
+		// below), is Reset and must then read the intact stream exactly
+		if len(got) > 0 && rapid.IntRange(0, 2).Draw(t, fmt.Sprintf("truncFirst%d", round)) == 0 {
+			cut := rapid.IntRange(0, len(got)-1).Draw(t, fmt.Sprintf("truncAt%d", round))
+			rb.SetBuf(got[:cut:cut])
+			r.Reset()
+			asked, sawErr := 0, false
+			extra := rapid.IntRange(0, 3).Draw(t, fmt.Sprintf("truncExtra%d", round)) // reads after the first error
+			for i := 0; i < 400 && extra >= 0; i++ {
+				l := fmt.Sprintf("t%d_%d", round, i)
+				var err error
+				switch rapid.IntRange(0, 2).Draw(t, l+"K") {
+				case 0:
+					_, err = r.ReadBit()
+					asked++
+				case 1:
+					_, err = r.ReadByte()
+					asked += 8
+				default:
+					n := rapid.IntRange(1, 64).Draw(t, l+"N")
+					_, err = r.ReadBits(n)
+					asked += n
+				}
+				if err != nil {
+					sawErr = true
+					extra--
+				} else if asked > cut*8 && !sawErr {
+					t.Fatalf("round %d: %d bits read from a stream of %d bits and no error was reported", round, asked, cut*8)
+				}
+			}
+			truncBefore = true
 		}
 		// read back with an independent partition
 		rb.SetBuf(got)
@@ -189,6 +222,9 @@ func bitStreamProperty(t *rapid.T) {
 	}
 	if total%8 != 0 {
 		classes = append(classes, "unaligned")
+	}
+	if truncBefore {
+		classes = append(classes, "reader-ran-past-truncated-end-before")
 	}
 	ev.Case("TestBitStream", canon, total >= 2 && (rounds > 1 || total%8 != 0), classes,
 		map[string]any{"rounds": rounds, "bits": total})
